@@ -2,7 +2,7 @@
    Runtime half (the process survives, a witness connection on a real socket keeps getting exact replies, the example
    store under boundary arguments) is observed by the harness; see DESIGN 4/C07. *)
 From Coq Require Import String.
-From GR Require Import Base Resp RespFacts Handler Exec Conn Multi ConnFacts LoopFacts MultiFacts.
+From GR Require Import Base Resp RespFacts Handler Exec Conn Multi ConnFacts LoopFacts MultiFacts Redis Store StoreSafe.
 
 Section C07.
   Variable hstate : Type.
@@ -53,3 +53,33 @@ Example C07_ex :
          (flat_map encode [RArr []; q [B"GETRANGE"; B"k"; B"0"; B"0"]; q [B"GETRANGE"; B"k"; B"5"; B"2"]; RArr [RBulk None]; RArr [RArr []]] ++ B"*4611686018427387904" ++ CRLF))
   = EndProtoErr.
 Proof. vm_compute. reflexivity. Qed.
+
+(* (5) the bundled example store: its index arithmetic, written with Go's PARTIAL slice / index primitives (None = the
+   run-time panic that would kill the process) and WRAPPING int64 arithmetic, never panics and never wraps: for every
+   list shorter than 2^62 and ALL int64 arguments — extreme, negative, inverted — the checked function returns exactly
+   what the total function of the store model (Store.v, which the correspondence run ties to the Go code) returns *)
+Theorem C07_example_store_indexing_safe :
+  (forall A (offset count : Z) (l : list A), i64 offset -> i64 count -> short l -> c_limit offset count l = Some (g_limit offset count l)) /\
+  (forall z start stop o, i64 start -> i64 stop -> i64 (zr_offset o) -> i64 (zr_count o) -> short z ->
+     c_zrange z start stop o = Some (g_zrange z start stop o)) /\
+  (forall l start stop, i64 start -> i64 stop -> short l -> c_lrange l start stop = Some (g_lrange l start stop)) /\
+  (forall l idx, i64 idx -> short l -> c_lindex l idx = Some (g_lindex l idx)) /\
+  (forall left l count, i64 count -> short l -> c_pop left l count = Some (g_pop left l count)) /\
+  (forall e z nil_, let pos := Z.of_nat (g_find_pos e z) in let grown := z ++ [nil_] in
+     go_slice grown (pos + 1) (lenZ grown) <> None /\ go_slice grown pos (lenZ grown) <> None /\ go_index grown pos <> None).
+Proof.
+  repeat split.
+  - intros A offset count l. apply c_limit_ok.
+  - exact c_zrange_ok.
+  - exact c_lrange_ok.
+  - exact c_lindex_ok.
+  - exact c_pop_ok.
+  - apply zadd_insert_in_range.
+  - apply zadd_insert_in_range.
+  - apply zadd_insert_in_range.
+Qed.
+Print Assumptions C07_example_store_indexing_safe.
+
+(* the checked functions do tell a panic: limitZSetMembers as it was before 4d3cec5 (`mems[offset:offset+count]`) *)
+Example C07_ex_store : c_limit_as_found 5 2 [B"a"; B"b"; B"c"] = None /\ c_limit 5 2 [B"a"; B"b"; B"c"] = Some [].
+Proof. exact c_limit_as_found_panics. Qed.
